@@ -603,6 +603,15 @@ func (i *Install) replaceRelease(rel *release.Release) error {
 	releaseutil.Reverse(hist, releaseutil.SortByRevision)
 	last := hist[0]
 
+	// Another install or upgrade may have got in since availableName checked
+	// the name: only an uninstalled or failed release may be replaced.
+	if st := last.Info.Status; st != release.StatusUninstalled && st != release.StatusFailed {
+		if st.IsPending() {
+			return errPending
+		}
+		return errors.New("cannot reuse a name that is still in use")
+	}
+
 	// Update version to the next available
 	rel.Version = last.Version + 1
 
